@@ -1330,7 +1330,7 @@ Qed.
 
 Lemma lspan_eqb_eq a b : lspan_eqb a b = true -> a = b.
 Proof.
-  unfold lspan_eqb. rewrite !andb_true_iff, !N.eqb_eq. intros ((((H1 & H2) & H3) & H4) & H5).
+  unfold lspan_eqb. rewrite !andb_true_iff, !N.eqb_eq. intros (((((H1 & H2) & H3) & H4) & H5) & H6).
   apply Bool.eqb_prop in H4. destruct a, b; cbn in *. congruence.
 Qed.
 
